@@ -32,7 +32,9 @@ def gen(ctx):
                 evalf=str(rng.choice(['experimental', 'experimental', 'parameter', 'model'])),
                 # the source carries settings of its own: obs_sigma given to the constructor (the documented
                 # shortcut), or set later through update_kwargs
-                src_kwargs=str(rng.choice(['none', 'none', 'ctor_obs_sigma', 'update_obs_sigma'])))
+                src_kwargs=str(rng.choice(['none', 'none', 'ctor_obs_sigma', 'update_obs_sigma'])),
+                # seeds arrive as Python ints or NumPy integer scalars
+                seed_type=str(rng.choice(['int', 'int', 'int64', 'int32', 'uint32'])))
 
 
 def snapshot(V):
@@ -84,8 +86,10 @@ def check_case(ctx, case):
             return
         ctx.count('source_kwargs:' + sk)
         before = snapshot(V)
+        st = case.get('seed_type', 'int')
+        seed_obj = case['seed'] if st == 'int' else getattr(np, st)(case['seed'])
         args = dict(source='values', sigma=case['sigma'], evalf=case['evalf'], num_iter=case['num_iter'],
-                    seed=case['seed'], q=case['q'])
+                    seed=seed_obj, q=case['q'])
         with quiet():
             r1 = np.asarray(propagate(V, **args), float)
             r2 = np.asarray(propagate(V, **args), float)
@@ -162,7 +166,7 @@ def check_case(ctx, case):
 
 
 def run(ctx):
-    for k in range(ctx.n(36, 300)):
+    for k in range(ctx.n(36, 600)):
         check_case(ctx, gen(ctx))
     ctx.lean.flush()
 
